@@ -37,15 +37,15 @@ def run(F, ctx):
     # insert
     f = F.fn(KG + "::insert_in_memory")
     lv = c32.live_vectors(f)
-    conts = [c for c in f.normal_calls() if c32._CONTAINS.search(c.static_args or "") and op_local(c.args[0]) in lv]
+    tests = c32.membership_tests(f, lv)
+    conts = [t[0] for t in tests]
     pushes = [c for c in f.normal_calls() if _PUSH_T.search(c.static_args or "")]
     live_push = [c for c in pushes if op_local(c.args[0]) in lv]
     eff_push = [c for c in pushes if op_local(c.args[0]) not in lv]
     dd = [c for c in f.normal_calls() if c.resolved == IE + "::insert"]
     ok = bool(conts) and bool(live_push) and bool(eff_push) and bool(dd)
     if ok:
-        br = common.branch_on_result(f, conts[0])
-        (sw, false_t, true_t) = br
+        (_c0, false_t, true_t, _t0) = tests[0]   # false_t: the `new tuple` side
         ok = all(f.dominates(false_t, p.bb) for p in eff_push)
         eff = set()
         for p in eff_push:
